@@ -116,20 +116,25 @@ class Ctx:
         return rc == 0
 
     def build_lean(self):
+        """-> (driver_ok, theorems_ok). The driver (model + spec, no theorem files) is built first: when a proof
+        obligation breaks, the executable model and oracle are still available to search for a failing input."""
         t = time.time()
         gen = getattr(self.prop, "pre_lean", None)
         if gen:
             gen(self)
-        targets = list(getattr(self.prop, "LEAN_TARGETS", [f"RreModel.{self.pid}.Theorems"])) + ["drv_" + self.low]
+        thm_targets = list(getattr(self.prop, "LEAN_TARGETS", [f"RreModel.{self.pid}.Theorems"]))
         with open(os.path.join(LEAN, ".lake.lock"), "w") as lk:   # one lake build at a time in this tree
             fcntl.flock(lk, fcntl.LOCK_EX)
-            rc, out, err = run(["lake", "build"] + targets, cwd=LEAN)
-        log(f"[{self.pid}] lake build rc={rc} {time.time()-t:.1f}s")
+            rc0, out0, err0 = run(["lake", "build", "drv_" + self.low], cwd=LEAN)
+            rc, out, err = run(["lake", "build"] + thm_targets, cwd=LEAN)
+        log(f"[{self.pid}] lake build driver rc={rc0} theorems rc={rc} {time.time()-t:.1f}s")
+        if rc0 != 0:
+            msg = "\n".join(l for l in (out0 + err0).splitlines() if "error" in l)[:4000]
+            self.broken.append(("lean-driver-build", "lake build of the model driver failed:\n" + msg))
         if rc != 0:
             msg = "\n".join(l for l in (out + err).splitlines() if "error" in l or "sorry" in l)[:4000]
             self.broken.append(("lean-build", "lake build failed (a proof obligation no longer checks):\n" + msg))
-        self.lean_warn_sorry = "declaration uses 'sorry'" in (out + err)
-        return rc == 0
+        return rc0 == 0, rc == 0
 
     def audit(self):
         """returns (obligations, discharged, per-theorem axioms)"""
@@ -351,9 +356,9 @@ def main():
     prop = ctx.prop
 
     ok_h = ctx.build_harness()
-    ok_l = ctx.build_lean()
+    ok_l, ok_thm = ctx.build_lean()
     obligations, discharged, axioms = (len(prop.THEOREMS), 0, {})
-    if ok_l:
+    if ok_thm:
         obligations, discharged, axioms = ctx.audit()
 
     if replay:
